@@ -88,6 +88,11 @@ func isUsed(field string, node Node) bool {
 						used = true
 					}
 				}
+			case NodeTypeUnnest:
+				// The unnested field determines how many rows come out, even if nobody reads it.
+				if node.Unnest.Field == field {
+					used = true
+				}
 			default:
 			}
 
